@@ -4,8 +4,9 @@ the toy fields of FieldP.tla (w = the 2^k-th root StarkField::get_root_of_unity 
 interpolation as its inverse, infer_degree as the index of the last non-zero coefficient, bit reversal,
 and the FftInputs shift operations.  TLC enumerates sizes 2..32 over F_97 / F_257 (unit vectors,
 all-ones, zero, seeded random; every blowup; offsets 1, g, -1, 10; base, quadratic and cubic
-coefficients) with complete outputs, and sizes 64..8192 over F_40961 (sparse polynomials with complete
-outputs, dense ones at sampled output indices).  The harness calls the real functions in the serial
+coefficients) with complete outputs, sizes 64..8192 over F_40961 (sparse polynomials with complete
+outputs, dense ones at sampled output indices) and EVERY (coefficients, blowup) pair with domain <= 8192
+over F_40961 (2 x 4096 ... 8192 x 1, complete outputs).  The harness calls the real functions in the serial
 build and in the concurrent build inside rayon pools of 1,2,3,4,7,8,16 threads; every run must
 return the values TLC computed (hence all runs agree with each other)."""
 import json, os, collections
@@ -87,6 +88,12 @@ def run(ck, tier):
     big = collections.Counter(s["n"] for s in sc if s["fam"] in ("full", "sampled") and s["n"] >= 64)
     ck.require(all(big[n] >= 2 for n in (64, 128, 256, 512, 1024, 2048, 4096, 8192)),
                "a size between 64 and 8192 is missing: %s" % dict(big))
+    # every (coefficients, blowup) pair the 2-adicity of F_40961 allows: short polynomials with large
+    # blowups (domain >= 1024 with fewer coefficients than threads) up to long ones with blowup 1
+    pairs = set((s["n"], s["blowup"]) for s in sc if s["fam"] == "full" and s["P"] == 40961)
+    want = set((2 ** a, 2 ** b) for a in range(1, 14) for b in range(0, 13) if a + b <= 13)
+    ck.require(want <= pairs, "(n, blowup) pairs missing from the grid: %s" % sorted(want - pairs)[:10])
+    ck.part("gen", grid_pairs=len(want), short_poly_big_domain=sum(1 for (n, b) in pairs if n <= 16 and n * b >= 1024))
     combos = set((s["P"], s["d"]) for s in sc if s["fam"] in ("full", "sampled"))
     ck.require({(97, 1), (97, 2), (97, 3), (257, 1), (257, 2), (40961, 1), (40961, 2), (40961, 3)} <= combos,
                "field / extension combinations missing: %s" % sorted(combos))
@@ -107,7 +114,8 @@ def run(ck, tier):
         replay_scenarios(ck, vf.build_harness("math", variant="concurrent", profile="dev"), "concurrent-dev", sc, [2, 8], "concurrent-dev")
     ck.bounds = {"design": "Chunking.tla: all interleavings of permute / shift batches, n <= 20 (40 thorough), threads 1..16",
                  "small": "n in 2..32, N = n*blowup <= 32 (F_97) / <= 256 (F_257), cfg " + cfg,
-                 "big": "n in 64..8192 over F_40961, N <= 8192", "threads": THREADS}
+                 "big": "n in 64..8192 over F_40961, N <= 8192",
+                 "grid": "all 91 pairs n = 2^a >= 2, blowup = 2^b, n*blowup <= 8192 over F_40961", "threads": THREADS}
     ck.exhaustive = False
     ck.assumptions = ["toy field types implement FieldP.tla's arithmetic and get_root_of_unity returns RootOfUnity(P, k) (a wrong root shows up as a mismatch)",
                       "the OS/rayon schedules met during the runs are a sample; schedule-independence of the chunking design is model-checked separately (Chunking.tla)",
